@@ -18,8 +18,11 @@ from vf.absfile import REAL
 from vf.util import conc
 
 CNT = [0]
-PYX = "/repo/smpl_extract/filters/fir.pyx"
-IIR_PYX = "/repo/smpl_extract/filters/iir.pyx"
+import os as _os
+import smpl_extract as _pkg
+_FDIR = _os.path.join(_os.path.dirname(_pkg.__file__), "filters")          # the checkout under analysis (/repo)
+PYX = _os.path.join(_FDIR, "fir.pyx")
+IIR_PYX = _os.path.join(_FDIR, "iir.pyx")
 ZERO = -1
 
 
